@@ -10,3 +10,4 @@ open GoSQLXModel
 #print axioms Props.C12.segments
 #print axioms Props.C12.swallowed_semicolon_counterexample
 #print axioms Props.C12.partial_prefix_counterexample
+#print axioms Props.C12.gen_start_keyword_by_type
